@@ -67,15 +67,19 @@ def xml_escape(rng, s, allow_numeric=True, html=False):
         if html and ord(ch) > 127 and ord(ch) in codepoint2name and rng.random() < 0.5:
             out.append(f"&{codepoint2name[ord(ch)]};")
             continue
+        # numeric spellings: decimal (also zero-padded), hexadecimal with lower- or upper-case digits (also zero-padded);
+        # HTML - not XML - allows the hexadecimal marker in upper case as well (&#X3C;)
+        numeric = [f"&#{ord(ch)};", f"&#x{ord(ch):x};", f"&#0{ord(ch)};", f"&#00{ord(ch)};", f"&#x{ord(ch):X};", f"&#x00{ord(ch):x};"] + \
+            ([f"&#X{ord(ch):X};", f"&#X{ord(ch):x};"] if html else [])
         if ch in "&<>":
             forms = [{"&": "&amp;", "<": "&lt;", ">": "&gt;"}[ch]]
             if allow_numeric:
-                forms += [f"&#{ord(ch)};", f"&#x{ord(ch):x};"]
+                forms += numeric
             out.append(rng.choice(forms))
         elif ch == '"' and rng.random() < 0.3:
             out.append("&quot;")
         elif ord(ch) > 127 and allow_numeric and rng.random() < 0.5:
-            out.append(rng.choice([f"&#{ord(ch)};", f"&#x{ord(ch):X};"]))
+            out.append(rng.choice(numeric))
         else:
             out.append(ch)
     return "".join(out)
@@ -164,6 +168,48 @@ def bounded(ctx, b):
             b.guard((fmt, i), one, sample={"format": fmt, "lines": cues, "wrapped": wrap})
 
 
+def bounded_span_shapes(ctx, b):
+    """inline elements in the places a producer may put them: a line break as the last child of a styled span that is
+    followed by text, spans that hold nothing but a blank / a no-break space / a line break"""
+    I, B, U = 'tts:fontStyle="italic"', 'tts:fontWeight="bold"', 'tts:textDecoration="underline"'
+    shapes = [(f'<span {I}>first line<br/></span>second line', ["first line", "second line"]),
+              (f'<span {I}>first<br/>line<br/></span><span {B}>second</span> line', ["first", "line", "second line"]),
+              (f'<span {B}>one</span><span {I}> </span><span {U}>two</span>', ["one two"]),
+              (f'upper<span {I}><br/></span>lower', ["upper", "lower"]),
+              (f'100<span {B}>&#160;</span>km and so on', ["100 km and so on"]),
+              (f'plain<br/><span {I}>styled</span><br/>', ["plain", "styled"]),
+              (f'<span {I}><span {B}>both<br/></span></span>after', ["both", "after"])]
+    for k, (body, lines) in enumerate(shapes):
+        dfxp = ('<tt xmlns="http://www.w3.org/ns/ttml" xmlns:tts="http://www.w3.org/ns/ttml#styling" xml:lang="en"><body><div>'
+                f'<p begin="1s" end="2s">before</p><p begin="3s" end="4s">{body}</p><p begin="5s" end="6s">after</p></div></body></tt>')
+        html = body
+        for attr, tag in ((I, "i"), (B, "b"), (U, "u")):
+            html = html.replace(f"<span {attr}>", f"<{tag}>")
+        # (the HTML spelling closes the elements in the order they were opened in these shapes: innermost first)
+        closers = []
+        out = ""
+        i = 0
+        while i < len(html):
+            if html.startswith("</span>", i):
+                out += f"</{closers.pop()}>"
+                i += 7
+                continue
+            if html[i] == "<" and html[i + 1] in "ibu" and html[i + 2] == ">":
+                closers.append(html[i + 1])
+            out += html[i]
+            i += 1
+        sami = ('<SAMI><HEAD><STYLE TYPE="text/css"><!-- .ENCC {Name: English; lang: en-US;} --></STYLE></HEAD><BODY>'
+                f'<SYNC start="1000"><P class="ENCC">before</P></SYNC><SYNC start="3000"><P class="ENCC">{out}</P></SYNC>'
+                '<SYNC start="5000"><P class="ENCC">after</P></SYNC></BODY></SAMI>')
+        for fmt, R, doc, lang in (("dfxp", DFXPReader, dfxp, "en"), ("sami", SAMIReader, sami, "en-US")):
+            def one(R=R, doc=doc, lang=lang, lines=lines):
+                caps = _READERS.setdefault(R, R()).read(doc).get_captions(lang)
+                got = [[norm(x) for x in c_.get_text().split("\n") if norm(x)] for c_ in caps]
+                exp = [["before"], lines, ["after"]]
+                return got == exp, {"read": got, "expected": exp, "doc": doc[-400:]}
+            b.guard(("span-shape", fmt, k), one, sample={"format": fmt, "markup": body})
+
+
 def bounded_linebreak_next_to_inline(ctx, b):
     """a source line break between a word and an inline element, or between two inline elements"""
     d = ('<tt xmlns="http://www.w3.org/ns/ttml" xmlns:tts="http://www.w3.org/ns/ttml#styling" xml:lang="en"><body><div>'
@@ -239,6 +285,9 @@ def run(ctx):
     ctx.bounded("webvtt_tags", "tag-shaped WebVTT cue text: every known tag name with no / one / several classes and with an "
                 "annotation, voice tags with 0-2 classes, unknown tags whose names extend a known one: voice -> 'Name: ', "
                 "known tags vanish, unknown tags stay literal", lambda b: bounded_webvtt_tags(ctx, b), exhaustive=True)
+    ctx.bounded("span_shapes", "DFXP / SAMI paragraphs with a line break as the last child of a styled span followed by text, and "
+                "spans holding only a blank, a no-break space or a line break: the lines a consumer would display",
+                lambda b: bounded_span_shapes(ctx, b))
     ctx.bounded("linebreak_next_to_inline", "DFXP / SAMI paragraph 'one\\n <i>two</i>\\n <i>three</i>\\n four'",
                 lambda b: bounded_linebreak_next_to_inline(ctx, b))
     ctx.bounded("documents", "documents generated from an abstract caption model by independent serialisers for the five text "
